@@ -41,6 +41,7 @@ func paramsCmd(args []string) int {
 	scfile := fs.String("scenarios", "", "scenario file")
 	out := fs.String("out", "params.ndjson", "records")
 	tok := fs.Int("tok", 0, "tokenizer sweep: every string up to this length through the real parser")
+	bin := fs.String("bin", "", "the real binary: drive the scenarios through start -p / restart / retry of the command layer")
 	fs.Parse(args)
 	log.SetOutput(io.Discard)
 	if *tok > 0 {
@@ -78,7 +79,9 @@ func paramsCmd(args []string) int {
 	}
 	f.Close()
 	base, _ := os.MkdirTemp("", "vh-par-")
-	defer os.RemoveAll(base)
+	if os.Getenv("VH_KEEP") == "" {
+		defer os.RemoveAll(base)
+	}
 	os.Setenv("HOME", base)
 	self, _ := os.Executable()
 	of, err := os.Create(*out)
@@ -93,7 +96,11 @@ func paramsCmd(args []string) int {
 	devnull, _ := os.OpenFile(os.DevNull, os.O_WRONLY, 0)
 	os.Stdout = devnull
 	for _, sc := range scs {
-		enc.Encode(rig.RunParams(self, sc, base))
+		if *bin != "" {
+			enc.Encode(rig.RunParamsCLI(self, *bin, sc, base))
+		} else {
+			enc.Encode(rig.RunParams(self, sc, base))
+		}
 	}
 	os.Stdout = so
 	fmt.Printf("{\"records\": %d}\n", len(scs))
